@@ -1,16 +1,4 @@
-(* Shared basics of the C14 slice: the edit/chunk types (the chunk model of C13), lines as byte
-   lists, text <-> lines, small string functions (models of strings.Cut / CutPrefix / Fields).
-   Definitions only. *)
-From Coq Require Import NArith ZArith List Bool.
-Import ListNotations.
-From Mds Require Export Mdiff.Decimal.
-Local Open Scope Z_scope.
-
-(* ---- LOCAL copy of the C13 types (same names); replaced by the shared model when it is ready *)
-Inductive op := Drop | Emit | Copy | Replace.
-Record edit (T : Type) := mkEdit { eop : op; X : list T; Y : list T }.
-Arguments mkEdit {T}. Arguments eop {T}. Arguments X {T}. Arguments Y {T}.
-Record chunk (T : Type) := mkChunk { edits : list (edit T); LStart : Z; LEnd : Z; RStart : Z; REnd : Z }.
-Arguments mkChunk {T}. Arguments edits {T}. Arguments LStart {T}. Arguments LEnd {T}.
-Arguments RStart {T}. Arguments REnd {T}.
-(* ---- end of local copy *)
+(* The C14 slice works on the shared chunk model of C13 (coq/Mdiff/MdiffModel.v: [chunk T] with
+   [edits], [LStart], [LEnd], [RStart], [REnd]; the edit type [edit T] with [eop], [X], [Y] and
+   [op] = Drop | Emit | Copy | Replace comes from Slice/EditLoop.v), instantiated at T := line. *)
+From Mds Require Export Mdiff.MdiffModel Mdiff.Decimal.
